@@ -694,7 +694,7 @@ def describe():
                       "pipeline.py:SingleEndPipeline.process_reads, PairedEndPipeline.process_reads", "report.py:Statistics.collect/_collect_step/_collect_modifier/as_json, "
                       "FILTERS, full_report/format_filter_report, minimal_report", "modifiers.py:QualityTrimmer/NextseqQualityTrimmer/PolyATrimmer/AdapterCutter.__call__ (counters), "
                       "PairedEndModifierWrapper, ReverseComplementer.__call__, PairedReverseComplementer.__call__, PairedAdapterCutter.__call__ (with_adapters)"],
-        "bounds": {"option_sets": len(OPTION_SETS), "read": "text from a fixed table (length 0..3, N count 0..length), header from a table of 5 names, expected errors from {0, 1, 1.5, 2.5}, "
+        "bounds": {"option_sets": len(OPTION_SETS), "read": "text from a fixed table (length 0..3, N count 0..length), header from a table of 8 names, expected errors from {0, 1, 1.5, 2.5}, "
                    "adapter found / not found per mate, which adapter name (demultiplexing)", "pre-state": "every filter counter and every written-length histogram cell an arbitrary int in 0..10^6",
                    "reports": "three concrete batches per option set covering every row of every feature table, through full_report, minimal_report and as_json",
                    "reads with adapters": "real AdapterCutter with --times 2 and 3 over stub adapters with a symbolic found/not found flag per round (0..3 matches on one read), single-end and "
